@@ -243,7 +243,23 @@ func Run(r *core.Run) {
 		} else {
 			nOld = len(j.sc.Cfg.EcKeys)
 		}
-		inv := invariant(nOld, initialKeyHashes(j.sc))
+		var initial []string
+		func() {
+			defer func() {
+				if x := recover(); x != nil {
+					if me, ok := x.(protomc.MkError); ok {
+						r.Violate(j.sc.Name+"/constructor-error", "the parties of an admissible configuration could not be constructed: "+me.Err.Error(), nil)
+						return
+					}
+					panic(x)
+				}
+			}()
+			initial = initialKeyHashes(j.sc)
+		}()
+		if initial == nil {
+			continue
+		}
+		inv := invariant(nOld, initial)
 		era := erasedAtEnd(nOld)
 		o := protomc.Options{C07: true, Mode: j.mode, Deviations: j.devs, Workers: w, JointValidate: 10, Observe: observe,
 			ResultOracle: terminalOracle(r, j.sc, j.signAll),
